@@ -295,11 +295,57 @@ func (w *World) VerifyFunc(fs *FuncSpec) {
 		nret++
 		pev := x.funcEnv(fi, "post", s, entry, args, results)
 		// return-time hints
+		nCut := 0
+		saved := x.hints
 		for _, c := range fs.Clauses {
 			if c.Kind == "useret" {
-				x.applyUse(s, c, pev, fi)
+				// evaluated over the local variables live at this return; skipped where they are not
+				x.invPos, x.invLoop = token.NoPos, nil
+				iev := x.funcEnv(fi, "inv", s, entry, args, results)
+				func() {
+					defer func() {
+						if r := recover(); r != nil {
+							if _, ok := r.(vcErr); !ok {
+								panic(r)
+							}
+						}
+					}()
+					x.applyUse(s, c, iev, fi)
+				}()
+			}
+			if c.Kind == "assertret" {
+				// a cut at the return: proved as its own obligation, then available to the ensures
+				x.invPos, x.invLoop = token.NoPos, nil
+				iev := x.funcEnv(fi, "inv", s, entry, args, results)
+				if t, err := iev.EvalBool(c.E); err == nil {
+					nCut++
+					x.oblige(s, "assertret", fmt.Sprintf("#%d", nCut), c.Text, fn.Pos(), t)
+					s.assume(t)
+				}
+			}
+			if c.Kind == "splitret" {
+				// split on an expression over the local variables live at this return (skipped
+				// on return paths where they are not live)
+				x.invPos, x.invLoop = x.retPos(s), nil
+				iev := x.funcEnv(fi, "inv", s, entry, args, results)
+				f := strings.Fields(c.Text)
+				if len(f) >= 3 {
+					var lo, hi int64
+					fmt.Sscanf(f[len(f)-2], "%d", &lo)
+					fmt.Sscanf(f[len(f)-1], "%d", &hi)
+					if e, err := ParseExpr(strings.Join(f[:len(f)-2], " ")); err == nil {
+						if v, err := iev.EvalVal(e); err == nil {
+							if si, ok := v.(SInt); ok {
+								h := x.hints.clone()
+								h.Splits = append(h.Splits, Split{si.T, lo, hi})
+								x.hints = h
+							}
+						}
+					}
+				}
 			}
 		}
+		defer func() { x.hints = saved }()
 		n := 0
 		for _, c := range fs.Clauses {
 			if c.Kind == "mapentries" {
@@ -1329,3 +1375,5 @@ func (x *Exec) checkMapEntries(st *State, fi *FuncInfo, c *Clause) {
 		x.oblige(st, "mapentries", fmt.Sprintf("/%s#%d", hd[0], j), "entry of "+hd[0]+": "+strings.TrimSpace(txt[sep+2:]), fi.Fn.Pos(), t)
 	}
 }
+
+func (x *Exec) retPos(s *State) token.Pos { return token.NoPos }
